@@ -243,8 +243,18 @@ class ActorHarness:
             def __init__(self, component_ids: Any) -> None:
                 self._system_power_bounds = harness.bounds_ch[frozenset(component_ids)]
 
-        self._orig_new_pool = _data_pipeline.new_battery_pool
-        _data_pipeline.new_battery_pool = lambda *, priority, component_ids=None, **kw: FakeBoundsPool(component_ids)  # type: ignore[assignment]
+        # the manager is the same actor for battery, EV-charger and PV pools; only where it subscribes to the system
+        # bounds differs - all three pool factories are substituted and the category is drawn
+        from frequenz.client.microgrid import InverterType
+
+        self._orig_pools = {n: getattr(_data_pipeline, n) for n in ("new_battery_pool", "new_ev_charger_pool", "new_pv_pool")}
+        for n in self._orig_pools:
+            setattr(_data_pipeline, n, lambda *, priority, component_ids=None, **kw: FakeBoundsPool(component_ids))
+        cat_k = sim.ch.weighted("component_category", [4, 1, 1])
+        category, ctype = [(ComponentCategory.BATTERY, None), (ComponentCategory.EV_CHARGER, None),
+                           (ComponentCategory.INVERTER, InverterType.SOLAR)][cat_k]
+        if cat_k:
+            sim.probe("manager_for_ev_or_pv_pool")
         self.prop_ch: Any = Broadcast(name="proposals")
         self.sub_ch: Any = Broadcast(name="report-subs")
         self.req_ch: Any = Broadcast(name="pd-requests")
@@ -253,7 +263,7 @@ class ActorHarness:
         req_rx = self.req_ch.new_receiver(limit=1000)
         self.actor = PowerManagingActor(
             self.prop_ch.new_receiver(limit=500), self.sub_ch.new_receiver(limit=100), self.req_ch.new_sender(),
-            self.res_ch.new_receiver(limit=500), self.reg, component_category=ComponentCategory.BATTERY)
+            self.res_ch.new_receiver(limit=500), self.reg, component_category=category, component_type=ctype)
         self.prop_tx = self.prop_ch.new_sender()
         self.sub_tx = self.sub_ch.new_sender()
         self.res_tx = self.res_ch.new_sender()
@@ -325,7 +335,8 @@ class ActorHarness:
         await self.actor.stop()
         for t in list(self.actor._bound_tracker_tasks.values()):
             t.cancel()
-        _data_pipeline.new_battery_pool = self._orig_new_pool  # type: ignore[assignment]
+        for n, fn in self._orig_pools.items():
+            setattr(_data_pipeline, n, fn)
 
 
 async def until(sim: Sim, when_us: int) -> None:
